@@ -292,15 +292,25 @@ class Project:
             name = st.name
             k = seen.get(name, 0)
             seen[name] = k + 1
-            q = f"{prefix}.{name}" + (f"#{k}" if k else "")
+            q = f"{prefix}.{name}"
+            if k:
+                # Python semantics: the last definition owns the plain name; earlier ones become name#<i>
+                old = self.functions.pop(q)
+                old.qualname = f"{q}#{k - 1}"
+                self.functions[old.qualname] = old
+                for sub in list(self.functions.values()):
+                    if sub.qualname.startswith(q + ".<locals>"):
+                        del self.functions[sub.qualname]
+                        sub.qualname = old.qualname + sub.qualname[len(q):]
+                        self.functions[sub.qualname] = sub
+                if cls is not None and parent_fn is None:
+                    cls.methods[f"{name}#{k - 1}"] = old
             fi = FunctionInfo(q, st, mi, cls, parent_fn)
             self.functions[q] = fi
             self.owner[id(st)] = fi
             self.stats["functions"] += 1
-            if cls is not None and parent_fn is None and k == 0:
+            if cls is not None and parent_fn is None:
                 cls.methods[name] = fi
-            elif cls is not None and parent_fn is None:
-                cls.methods[f"{name}#{k}"] = fi
             self._index_nested(mi, st, q, fi)
         elif isinstance(st, ast.ClassDef):
             q = f"{prefix}.{st.name}"
